@@ -62,7 +62,7 @@ func genCaseA(t *rapid.T) *CaseA {
 	nq := rapid.IntRange(1, 12).Draw(t, "nqueries")
 	for i := 0; i < nq; i++ {
 		q := Query{
-			Client: rapid.SampledFrom([]string{"alice", "alice", "bob", "carol", "mallory", ""}).Draw(t, "qclient"),
+			Client: rapid.SampledFrom([]string{"alice", "alice", "alice", "bob", "carol", "mallory", "", "Alice", "ALICE", "alice ", "alic", "bobby"}).Draw(t, "qclient"),
 			Wallet: genName(t, wpats, baseWallets),
 			Op:     rapid.SampledFrom(append(append([]string{}, vkit.Operations...), "Frobnicate")).Draw(t, "qop"),
 		}
